@@ -116,7 +116,7 @@ class EndToldMon(T.Monitor):
         return None
 
 
-def r6(cx):
+def r6(cx, rule="C01.R6", only=None, floor=15):
     m = cx.m
     eng, _ = engine(cx)
     from rules.c02 import site_key
@@ -137,16 +137,18 @@ def r6(cx):
                 found.setdefault((q, b), (S, label, s0, path))
             eng.run(f, s0, Collect())
     for (q, b) in sorted(sites):
+        if only is not None and not re.search(only, q):
+            continue
         f = m.fns[q]
         k = site_key(m, q, b)
         if (q, b) in found:
             S, label, s0, path = found[(q, b)]
-            cx.ob("C01.R6", "end-told:%s" % k, False,
+            cx.ob(rule, "end-told:%s" % k, False,
                   "the task is written %s at `%s` and `%s` (entered in %s) returns Ok without emitting it in that state: nobody learns that it ended "
                   "(no terminal event, its parent is never reviewed)" % (S, k, label, s0), f.loc(b), path=[T.fmt_event(m, e) for e in path[-6:]])
         else:
-            cx.ob("C01.R6", "end-told:%s" % k, True, "after the terminal write at `%s` every Ok exit of exec / update has emitted the task in that state" % k, f.loc(b))
-    cx.floor("C01.R6", 15)
+            cx.ob(rule, "end-told:%s" % k, True, "after the terminal write at `%s` every Ok exit of exec / update has emitted the task in that state" % k, f.loc(b))
+    cx.floor(rule, floor)
 
 
 def r1(cx):
